@@ -1,4 +1,5 @@
 import RichModel.Lemmas.LayoutDeps
+import RichModel.Lemmas.TableTotal
 /-!
 `Layout.Dep.width_fits` for tables WITH ratio columns: the first pass of `_calculate_column_widths` hands every flexible
 (ratio) column of an expanding table at least its flex minimum (`1 + padding`), provided every ratio that is set
@@ -186,16 +187,31 @@ theorem firstWidths_pos (fl : Flags) (t : Table) (hr : t.expand = false ∨ t.Ra
         exact absurd heq (ratioDistribute_mins_ne_none _ _ _ hlen hne hrat hmin)
       · rename_i flexWidths heq
         obtain ⟨hfl1, hfl2⟩ := ratioDistribute_mins_pos _ _ _ hlen hne hrat hmin _ heq
-        have hfw : (if fl.flexNegative then flexWidths else flexWidths.map (fun w => max 0 w)).length
+        have hfw : (if fl.flexNegative then flexWidths
+              else if fl.flexClampZero then flexWidths.map (fun w => max 0 w)
+              else (((t.indexed.filter (fun ci => ci.1.flexible)).map
+                (fun ci => orOne (ci.1.width.getD 0) + t.paddingWidth ci.2)).zip flexWidths).map (fun mw => max mw.1 mw.2)).length
               = (t.indexed.filter (fun ci => ci.1.flexible)).length ∧
-            ∀ f ∈ (if fl.flexNegative then flexWidths else flexWidths.map (fun w => max 0 w)), 1 ≤ f := by
+            ∀ f ∈ (if fl.flexNegative then flexWidths
+              else if fl.flexClampZero then flexWidths.map (fun w => max 0 w)
+              else (((t.indexed.filter (fun ci => ci.1.flexible)).map
+                (fun ci => orOne (ci.1.width.getD 0) + t.paddingWidth ci.2)).zip flexWidths).map (fun mw => max mw.1 mw.2)), 1 ≤ f := by
           split
           · exact ⟨by simpa using hfl1, hfl2⟩
-          · refine ⟨by simpa using hfl1, ?_⟩
-            intro f hf
-            obtain ⟨d, hd, rfl⟩ := List.mem_map.mp hf
-            have := hfl2 d hd
-            omega
+          · split
+            · refine ⟨by simpa using hfl1, ?_⟩
+              intro f hf
+              obtain ⟨d, hd, rfl⟩ := List.mem_map.mp hf
+              have := hfl2 d hd
+              omega
+            · refine ⟨?_, ?_⟩
+              · have h1' : flexWidths.length = (t.indexed.filter (fun ci => ci.1.flexible)).length := by simpa using hfl1
+                simp only [List.length_map, List.length_zip]
+                omega
+              · intro f hf
+                obtain ⟨mw, hmw, rfl⟩ := List.mem_map.mp hf
+                have := hfl2 mw.2 (List.of_mem_zip hmw).2
+                omega
         rw [columns_eq_indexed_map t]
         obtain ⟨r, h1, h2, h3⟩ := mergeFlex_indexed (fun ci => t.measureColumn ci.2 ci.1 maxWidth) (fun r => orOne r.maximum)
           (fun rc => if rc.2.1.flexible then 0 else if fl.fixedRawMaximum then rc.1.maximum else orOne rc.1.maximum)
@@ -206,14 +222,12 @@ theorem firstWidths_pos (fl : Flags) (t : Table) (hr : t.expand = false ∨ t.Ra
 
 /-! ### `width_fits` -/
 
-/-- **width_fits with ratio columns.**  Same statement as `Layout.Dep.width_fits` with `t.NoRatio` replaced by
-"the table does not expand, or every ratio that is set is at least 1" (and the table's padding not negative, which is what
-makes the flex minimum `1 + padding` at least one cell). -/
-theorem width_fits_ratio (fl : Flags) (t : Table) (maxWidth : Int) (hr : t.expand = false ∨ t.RatiosPos) (hfree : t.AllFree)
-    (hpad : ∀ i, 0 ≤ t.paddingWidth i)
+/-- the part of `width_fits` that does not look at ratios: a first pass that gives every column at least one cell is enough -/
+theorem width_fits_core' (fl : Flags) (t : Table) (maxWidth : Int)
+    (hfirst : ∃ ws0, t.firstWidths fl maxWidth = some ws0 ∧ ws0.length = t.columns.length ∧ ∀ w ∈ ws0, 1 ≤ w) (hfree : t.AllFree)
     (hne : t.columns ≠ []) (hnw : ∀ c ∈ t.columns, c.noWrap = false) (hmw : (t.columns.length : Int) ≤ maxWidth) :
     ∃ ws, t.calcWidths fl maxWidth = some ws ∧ ws.sum ≤ maxWidth ∧ ws.length = t.columns.length ∧ ∀ w ∈ ws, 1 ≤ w := by
-  obtain ⟨ws0, h0, hl, hp⟩ := firstWidths_pos fl t hr hfree hpad maxWidth
+  obtain ⟨ws0, h0, hl, hp⟩ := hfirst
   have hwrap : ∀ c ∈ t.columns, c.width = none ∧ c.noWrap = false := by
     intro c hc
     obtain ⟨i, hi, rfl⟩ := List.getElem_of_mem hc
@@ -260,6 +274,31 @@ theorem width_fits_ratio (fl : Flags) (t : Table) (maxWidth : Int) (hr : t.expan
     have := padTarget_le fl t maxWidth
     split <;> omega
 
+/-- **width_fits with ratio columns.**  Same statement as `Layout.Dep.width_fits` with `t.NoRatio` replaced by
+"the table does not expand, or every ratio that is set is at least 1" (and the table's padding not negative, which is what
+makes the flex minimum `1 + padding` at least one cell). -/
+theorem width_fits_ratio (fl : Flags) (t : Table) (maxWidth : Int) (hr : t.expand = false ∨ t.RatiosPos) (hfree : t.AllFree)
+    (hpad : ∀ i, 0 ≤ t.paddingWidth i)
+    (hne : t.columns ≠ []) (hnw : ∀ c ∈ t.columns, c.noWrap = false) (hmw : (t.columns.length : Int) ≤ maxWidth) :
+    ∃ ws, t.calcWidths fl maxWidth = some ws ∧ ws.sum ≤ maxWidth ∧ ws.length = t.columns.length ∧ ∀ w ∈ ws, 1 ≤ w :=
+  width_fits_core' fl t maxWidth (firstWidths_pos fl t hr hfree hpad maxWidth) hfree hne hnw hmw
+
+
+/-- **width_fits for every ratio (zero included)** on the code with the repaired flexible-width clamp (`max(minimum, width)`):
+the first pass is `firstWidths_ge_one` (Lemmas/TableTotal.lean, C07). -/
+theorem width_fits_any_ratio' (fl : Flags) (h2 : fl.flexNegative = false) (h3 : fl.flexClampZero = false) (t : Table)
+    (maxWidth : Int) (hfree : t.AllFree) (hpad : ∀ i, 0 ≤ t.paddingWidth i) (hrat : ∀ c ∈ t.columns, 0 ≤ c.ratio.getD 0)
+    (hne : t.columns ≠ []) (hnw : ∀ c ∈ t.columns, c.noWrap = false) (hmw : (t.columns.length : Int) ≤ maxWidth) :
+    ∃ ws, t.calcWidths fl maxWidth = some ws ∧ ws.sum ≤ maxWidth ∧ ws.length = t.columns.length ∧ ∀ w ∈ ws, 1 ≤ w := by
+  apply width_fits_core' fl t maxWidth _ hfree hne hnw hmw
+  apply firstWidths_ge_one fl h2 h3 t maxWidth _ hpad _ hrat
+  · intro ci hci; exact (measureColumn_free t ci.2 ci.1 maxWidth (hfree ci hci)).1
+  · intro c hc
+    obtain ⟨i, hi, rfl⟩ := List.getElem_of_mem hc
+    have : (t.columns[i], i) ∈ t.indexed := by
+      unfold Table.indexed; exact List.mem_zipIdx_iff_getElem?.2 (by simp [hi])
+    rw [(hfree _ this).1]; simp
+
 /-- Both domains at once: no active ratio column (`Layout.Dep.width_fits`; this allows `ratio=0` columns as long as NO ratio is
 active) or every ratio that is set at least 1 (`width_fits_ratio`). -/
 theorem width_fits_noRatio_or_ratiosPos (fl : Flags) (t : Table) (maxWidth : Int) (hr : t.NoRatio ∨ t.RatiosPos)
@@ -284,6 +323,6 @@ example : Layout.Dep.wTableRatio.expand = true ∧ Layout.Dep.wTableRatio.Ratios
 /-- Why `ratio=0` next to an active ratio is excluded: the zero-ratio column is handed what is left — nothing. -/
 example : ({ columns := [{ header := Layout.Dep.wCell ['a'], footer := Layout.Dep.wCell [], cells := [], ratio := some 1 },
                           { header := Layout.Dep.wCell ['b'], footer := Layout.Dep.wCell [], cells := [], ratio := some 0 }],
-             expandFlag := true, padding := (0, 0, 0, 0) } : Table).firstWidths Flags.allRepaired 1 = some [1, 0] := by decide
+             expandFlag := true, padding := (0, 0, 0, 0) } : Table).firstWidths { Flags.allRepaired with flexClampZero := true } 1 = some [1, 0] := by decide
 
 end RichModel
